@@ -18,7 +18,7 @@ import (
 func init() {
 	register("C14", PropCheck{
 		Title:      "Bytecode encoding and decoding are exact inverses",
-		Explain:    "Format agreement between the separate codecs, decided on finite tables: (R1) OpcodeString and OpcodeIndex are mutually inverse over all opcode constants, _MAX equals the largest opcode, and Vm.Run's switch, ParseAll's switch and WithDefaultHandlers cover the same twelve instructions; (R2) for each opcode the decoder's argument signature (sequence of length-prefixed symbols S, length-prefixed integers I and raw bytes B decoded on every success path of its Parse* function) equals the arity and kinds at every vm.NewLine call site with a constant opcode anywhere in the repository (library, assembler batch expansion, engine, examples, testdata) and the parameter list of the matching ParseHandler callback; (R3) primitive framing: the symbol and integer decoders' bounds arithmetic cannot wrap (every length the encoders can emit, including a 255-byte symbol, is decodable), the symbol encoder refuses more than 255 bytes, the integer encoder refuses more than 4 bytes and the integer decoder refuses a length byte above 4; the one-byte length written by the exported line builder vm.NewLine is reported where it is not proved to fit (NewLine cannot refuse: two known findings), and the assembler's batch (menu) processor, which expands through NewLine, compares every string argument it stores with 255 before keeping it; (R4) the assembler's integer encoder emits a suffix of the 4-byte big-endian buffer and never right-trims it (low-order zero bytes are significant); (R7) the primitive decoders and encoders compute no +, -, * or << in an integer type narrower than 32 bits whose result can leave the type (the zone engine bounds the operands), and narrow no value without proof - `uint32(x16<<8)` loses a byte before it is widened; (R8) the integer decoder is total over the lengths it accepts: on every success path the returned value is decoded from the operand bytes, and the length byte itself reaches the result only behind the 'length is 0' edge (added after seeded change C06-H, a decode-by-width switch without a 3-byte case); (R9) vm.NewLine writes the width byte of its integer operand whenever the operand is non-nil - behind a nil test, never behind a comparison of its length (an empty non-nil operand is the minimal encoding of 0; added after seeded change C14-G); (R10) ParseHandler.ToString returns the contents of a buffer allocated in the call, so lines of a failed listing cannot appear in the next one (added after C14-H). (R11) the codec packages vm and asm do not import package unsafe - decoded strings are copies of the instruction bytes; (R12) = C16 R6, the assembler's per-line buffer (added after seeded changes C14-I and C14-J). (R13) no WriteRune of a computed value in asm or vm - lengths and sizes are bytes; (R14) the initial values of the two accumulators of MenuProcessor.ToLines share no allocation (added after seeded changes C14-K and C14-L).",
+		Explain:    "Format agreement between the separate codecs, decided on finite tables: (R1) OpcodeString and OpcodeIndex are mutually inverse over all opcode constants, _MAX equals the largest opcode, and Vm.Run's switch, ParseAll's switch and WithDefaultHandlers cover the same twelve instructions; (R2) for each opcode the decoder's argument signature (sequence of length-prefixed symbols S, length-prefixed integers I and raw bytes B decoded on every success path of its Parse* function) equals the arity and kinds at every vm.NewLine call site with a constant opcode anywhere in the repository (library, assembler batch expansion, engine, examples, testdata) and the parameter list of the matching ParseHandler callback; (R3) primitive framing: the symbol and integer decoders' bounds arithmetic cannot wrap (every length the encoders can emit, including a 255-byte symbol, is decodable), the symbol encoder refuses more than 255 bytes, the integer encoder refuses more than 4 bytes and the integer decoder refuses a length byte above 4; the one-byte length written by the exported line builder vm.NewLine is reported where it is not proved to fit (NewLine cannot refuse: two known findings), and the assembler's batch (menu) processor, which expands through NewLine, compares every string argument it stores with 255 before keeping it; (R4) the assembler's integer encoder emits a suffix of the 4-byte big-endian buffer and never right-trims it (low-order zero bytes are significant); (R7) the primitive decoders and encoders compute no +, -, * or << in an integer type narrower than 32 bits whose result can leave the type (the zone engine bounds the operands), and narrow no value without proof - `uint32(x16<<8)` loses a byte before it is widened; (R8) the integer decoder is total over the lengths it accepts: on every success path the returned value is decoded from the operand bytes, and the length byte itself reaches the result only behind the 'length is 0' edge (added after seeded change C06-H, a decode-by-width switch without a 3-byte case); (R9) vm.NewLine writes the width byte of its integer operand whenever the operand is non-nil - behind a nil test, never behind a comparison of its length (an empty non-nil operand is the minimal encoding of 0; added after seeded change C14-G); (R10) ParseHandler.ToString returns the contents of a buffer allocated in the call, so lines of a failed listing cannot appear in the next one (added after C14-H). (R11) the codec packages vm and asm do not import package unsafe - decoded strings are copies of the instruction bytes; (R12) = C16 R6, the assembler's per-line buffer (added after seeded changes C14-I and C14-J). (R13) no WriteRune of a computed value in asm or vm - lengths and sizes are bytes; (R14) the initial values of the two accumulators of MenuProcessor.ToLines share no allocation (added after seeded changes C14-K and C14-L). (R15) the primitive symbol and integer decoders call nothing but builtins, error constructors, encoding/binary, logging and helpers of that same kind: they refuse for framing, never for content (added after seeded change C14-M, a UTF-8 test on decoded symbols). (R16) = C16 R8: numbers the assembler parses from the source are not narrowed or range-limited below 32 bits (added after seeded change C14-N).",
 		NotDecided: "equality of values after a round trip for all uint32 and all strings, the log2-based width computation for every value, 'consumes exactly its own bytes' beyond the signature agreement - these are value-level; no run-time enumeration is substituted.",
 		Run:        runC14,
 	})
@@ -572,6 +572,9 @@ func checkBatchArgLimits(w *core.World, r *core.Report, rule string) {
 		for _, in := range allInstrs(fn) {
 			if st, ok := in.(*ssa.Store); ok {
 				if tn, f, ok := core.FieldOfAddr(st.Addr); ok && f == "items" && strings.Contains(tn, "MenuProcessor") {
+					if core.IsNilConst(st.Val) {
+						continue // emptying the collection after an expansion is not the adder
+					}
 					adder, store = fn, st
 				}
 			}
